@@ -146,6 +146,11 @@ def leaf_instances():
         "Concatenate": bj.Concatenate([bj.Exp((2,)), bj.Tanh((1,))]), "Stack": bj.Stack([bj.Exp((2,)), bj.Tanh((2,))], axis=-1),
         "Partial": bj.Partial(bj.Exp((2,)), slice(0, 2), (4,)), "Reshape": bj.Reshape(bj.Exp((4,)), (2, 2)),
         "EmbedCondition": bj.EmbedCondition(bj.AdditiveCondition(lambda c: c.sum(), (3,), (2,)), lambda c: c[:2], (5,)),
+        "AdditiveCondition(scalar cond)": bj.AdditiveCondition(lambda c: c, (3,), ()),
+        "EmbedCondition(scalar raw cond)": bj.EmbedCondition(bj.AdditiveCondition(lambda c: c.sum(), (3,), (2,)), lambda c: jnp.stack([c, -c]), ()),
+        "Reshape(cond to scalar)": bj.Reshape(bj.AdditiveCondition(lambda c: c.sum(), (4,), (1,)), (2, 2), ()),
+        "Vmap(scalar cond mapped)": bj.Vmap(bj.AdditiveCondition(lambda c: c, (), ()), axis_size=3, in_axes_condition=0),
+        "Chain(scalar cond)": bj.Chain([bj.Exp((2,)), bj.AdditiveCondition(lambda c: c, (2,), ())]),
     }
     from flowjax.bijections.block_autoregressive_network import _CallableToBijection
     from flowjax.bijections.planar import _UnconditionalPlanar
@@ -266,7 +271,8 @@ def main():
     valid = [c for c in cases if c["r"]["valid"]]
     budget = 6000 if thorough else 260
     picked = valid if len(valid) <= budget else rng.sample(valid, budget)
-    inv_b = invalid if len(invalid) <= (4000 if thorough else 131) else rng.sample(invalid, 4000)
+    ib = 4000 if thorough else 160
+    inv_b = invalid if len(invalid) <= ib else rng.sample(invalid, ib)
     pool.map_cases(rep, "harness.c13", "check_case", picked + inv_b)
     check_leaf_classes(rep)
     check_documented_constructor_errors(rep)
